@@ -1269,6 +1269,12 @@ class Fxp():
             _vanished = (scaled_val == 0) & (val != 0)
             if np.any(_vanished):
                 scaled_val = np.where(_vanished, np.copysign(5e-324, val), scaled_val)
+        elif self.n_frac < 0 and not raw and isinstance(scaled_val, np.ndarray) and scaled_val.dtype == object and scaled_val.size > 0:
+            # the same for the float elements of an object array (a list that also holds a Decimal, an exact rational, a huge integer)
+            _flat_v = np.asarray(val).flatten().tolist(); _flat_s = scaled_val.flatten().tolist()
+            if any(isinstance(v, (float, np.floating)) and v != 0 and s_ == 0 for v, s_ in zip(_flat_v, _flat_s)):
+                _fixed = [math.copysign(5e-324, v) if (isinstance(v, (float, np.floating)) and v != 0 and s_ == 0) else s_ for v, s_ in zip(_flat_v, _flat_s)]
+                scaled_val = np.array(_fixed + [None], dtype=object)[:-1].reshape(scaled_val.shape)
         return scaled_val
 
     def _round(self, val, method='floor'):
